@@ -1692,11 +1692,14 @@ def module_fingerprints(tree, modname, is_pkg=False, known_modules=(), inlinable
     ctx = Ctx(modname, is_pkg, imports, module_names, loggers, known_modules, mod_funcs, mod_classes, inlinable)
     ctx.ancestors = same_module_ancestors(tree)
     ctx.module_consts = module_constants(tree)
-    funcs, residue, inlined, scopes = {}, [], set(), {}
+    funcs, residue, inlined, scopes, params = {}, [], set(), {}, {}
 
     def add(key, fnode, cls):
         g = FuncGraph(fnode, ctx, cls)
         funcs[key] = g.fingerprint()          # a later definition of the same name shadows the earlier one
+        a = fnode.args
+        params[key] = [x.arg for x in a.posonlyargs + a.args] + (["*" + a.vararg.arg] if a.vararg else []) + \
+                      ["=" + x.arg for x in a.kwonlyargs] + (["**" + a.kwarg.arg] if a.kwarg else [])
         inlined.update(g.inlined)
 
     def is_doc(st):
@@ -1776,7 +1779,7 @@ def module_fingerprints(tree, modname, is_pkg=False, known_modules=(), inlinable
     exported = sorted((k, v) for k, v in imports.items() if is_pkg)
     transparent = sorted(f"{c}.{n}" if c else n for (c, n), k in ctx.created.items() if 0 < k <= ctx.consumed.get((c, n), 0))
     return {"funcs": funcs, "residue": _h(repr(residue), repr(exported)),
-            "inlined": sorted(f"{c}.{n}" if c else n for c, n in inlined), "transparent": transparent, "consts": consts, "scopes": scopes}
+            "inlined": sorted(f"{c}.{n}" if c else n for c, n in inlined), "transparent": transparent, "consts": consts, "scopes": scopes, "params": params}
 
 
 def _residue_text(st):
